@@ -300,7 +300,7 @@ def build(spec, plain=False):
             kw["workplace_priority_rule"] = WP_RULES[ts["wprule"]]
         if ts.get("sub") is not None:
             sub = ts["sub"]
-            kw["auto_task"] = True
+            kw["auto_task"] = bool(sub.get("auto", True))  # ("auto": False - a sub-project task that is worked by the parent's own people)
             t = SubC(
                 file_path=sub.get("file_path"),
                 unit_timedelta=datetime.timedelta(minutes=sub["unit_min"]) if sub.get("unit_min") else None,
